@@ -183,6 +183,13 @@ func Scope() map[string]cty.Value {
 
 // Functions implements the spec's function table (HclExpr!FnParams).
 func Functions() map[string]function.Function {
+	m := baseFunctions()
+	m["ns::id"] = m["id"]
+	m["a::b::upper"] = m["upper"]
+	return m
+}
+
+func baseFunctions() map[string]function.Function {
 	str := func(name string, allowNull bool) function.Parameter {
 		return function.Parameter{Name: name, Type: cty.String, AllowNull: allowNull}
 	}
